@@ -48,6 +48,7 @@ class Respeller:
     def __init__(self, rng):
         self.r = rng
         self.stats = Counter()
+        self.assigned = set()
 
     def ws(self, need):
         k = self.r.random()
@@ -110,7 +111,12 @@ class Respeller:
                 isreg = re.fullmatch(r'r\d{1,2}|[xyz]', low) is not None
                 in_defined = i >= 2 and items[i - 1][1] == '(' and items[i - 2][1].lower() == 'defined'
                 defining = head in DEFINING and i == 0
-                if isreg or not (nocase or in_defined or defining) or (head in ('.equ', '.set', '.def') and i > 0 and not in_defined):
+                reassign = False
+                if defining and head == '.set':
+                    # the first `.set NAME` defines the name; a later one REFERS to the variable it assigns again
+                    if low in self.assigned: defining, reassign = False, True
+                    else: self.assigned.add(low)
+                if isreg or reassign or not (nocase or in_defined or defining) or (head in ('.equ', '.set', '.def') and i > 0 and not in_defined):
                     if not defining and not in_defined and head not in ('.define', '.ifdef', '.ifndef', '.device', '.macro'):
                         txt = self.case(t)
             elif kind in ('hex', 'bin', 'num'):
@@ -180,6 +186,7 @@ class Respeller:
 
     def program(self, lines):
         out = []
+        self.assigned = set()
         for l in lines:
             if self.r.random() < .12:
                 out.append(self.r.choice(['', ' ', '\t', '; only a comment', '  // only a comment', '/* only a comment */', ' /* c */  ', '/** doc **/', '/***/']))
